@@ -14,7 +14,7 @@ from common import Work
 
 PRELUDE = '''type In struct { .V: i32, .W: [3]i32 };
 type S struct { .N: i32, .I: In, .A: [3]In, .D: []i32, .P: map[str]i32 };
-type H struct { .M: &'In, .R: &In, .K: i32, .V: In, .FA: [2]In, .DA: []In };
+type H struct { .M: &'In, .R: &In, .K: i32, .V: In, .FA: [2]In, .DA: []In, .RI: &i32, .MI: &'i32, .RA: [2]&i32 };
 type Ctx struct { .Z: i32 };
 fn (x: &'In) bump() { x.V = x.V + 1; }
 fn (x: &'S) bump() { x.N = x.N + 1; }
@@ -41,7 +41,12 @@ STEPS = {
     "i32": [],
     # the reference-field family (root type H)
     "H": [(("f", "M"), "&'In"), (("f", "R"), "&In"), (("f", "K"), "i32"), (("f", "V"), "In"), (("f", "FA"), "[2]In"),
-          (("f", "DA"), "[]In")],
+          (("f", "DA"), "[]In"),
+          # places whose OWN type is a reference to a scalar: `rt.RI++`, `rt.RA[1] -= 2`, `rt.MI = 7` write through that reference
+          # (seed C06e: ++/-- on a non-identifier place of type &i32 accepted)
+          (("f", "RI"), "&i32"), (("f", "MI"), "&'i32"), (("f", "RA"), "[2]&i32")],
+    "[2]&i32": [(("i", "IFixed"), "&i32")],
+    "&i32": [], "&'i32": [],
     "[2]In": [(("i", "IFixed"), "In")],
     "[]In": [(("i", "IDyn"), "In")],
     "&'In": [(("f", "V"), "i32"), (("f", "W"), "[3]i32")],
@@ -237,8 +242,8 @@ def program(kind, ctx, stmt):
     if kind in ("immrecv", "mutrecv", "valrecv"):
         rty = {"immrecv": "&S", "mutrecv": "&'S", "valrecv": "S"}[kind]
         return pre + "fn (rt: %s) work() {\n%s}\nfn main() {\n    let v := mkS();\n    v.work();\n}\n" % (rty, body)
-    hsetup = "    let ha := mkIn();\n    let hb := mkIn();\n"
-    hlit = "{ .M = &'ha, .R = &hb, .K = 1, .V = mkIn(), .FA = [mkIn(), mkIn()], .DA = [mkIn()] } as H"
+    hsetup = "    let ha := mkIn();\n    let hb := mkIn();\n    let hi: i32 = 1;\n    let hj: i32 = 2;\n    let hk: i32 = 3;\n    let hl: i32 = 4;\n"
+    hlit = "{ .M = &'ha, .R = &hb, .K = 1, .V = mkIn(), .FA = [mkIn(), mkIn()], .DA = [mkIn()], .RI = &hi, .MI = &'hj, .RA = [&hk, &hl] } as H"
     hvset = hsetup + "    let hv := %s;\n" % hlit
     if kind == "valparamH":
         return pre + enclose("rt: H", "hv", body, hvset)
